@@ -28,7 +28,7 @@ func init() {
 	core.Register(&core.Property{
 		ID:    "C08",
 		Level: "model_checking",
-		Rule: "universe = (a) every sequence of <=5 (thorough <=6) lines over 16 line shapes (headers good/bad, '#', blank, metavariable declarations good/bad, -/+/context lines, elision lines) with and without final newline; (b) every sequence of <=4 (thorough <=5) tokens over a 33-token alphabet as the '-' side against a fixed '+' side and vice versa; (c) every byte prefix of every patch in /repo/testdata and /repo/examples; (d) the radius-1 token neighbourhood of each of those patches (each token deleted, duplicated, swapped with its neighbour, replaced by each alphabet token); (f) the radius-1 byte neighbourhood of those patches (each byte deleted; each of 14 (thorough 31) hostile bytes incl. NUL, 0xff, CR inserted before / written over every position); (g) every real patch and 7 stress patches against every construct of the catalogue in context and against deeply nested / long sources (nesting 10..300, thorough ..1000); (h) 14 unusual file headers (empty comment lines, /**/, BOM, //line, markers) x 3 bodies x 5 flag sets through the CLI; (e) well-formed but ill-typed patches: every metavariable kind in every slot kind on either side with captures of every filler kind. Each runs patch.Parse and, if accepted, Apply on target files that contain every construct; a slice also through the CLI (-p and stdin). " +
+		Rule: "universe = (a) every sequence of <=5 (thorough <=6) lines over 16 line shapes (headers good/bad, '#', blank, metavariable declarations good/bad, -/+/context lines, elision lines) with and without final newline; (b) every sequence of <=4 (thorough <=5) tokens over a 33-token alphabet as the '-' side against a fixed '+' side and vice versa; (c) every byte prefix of every patch in /repo/testdata and /repo/examples; (d) the radius-1 token neighbourhood of each of those patches (each token deleted, duplicated, swapped with its neighbour, replaced by each alphabet token); (f) the radius-1 byte neighbourhood of those patches (each byte deleted; each of 14 (thorough 31) hostile bytes incl. NUL, 0xff, CR inserted before / written over every position); (g) every real patch and 7 stress patches against every construct of the catalogue in context and against deeply nested / long sources (nesting 10..300, thorough ..1000); (h) 14 unusual file headers (empty comment lines, /**/, BOM, //line, markers) x 3 bodies x 5 flag sets through the CLI; (i) a target tree whose symbolic links form cycles; every sequence of <=3 lines of a -P list over {valid, missing, empty, blanks, tab, '#', trailing blanks} with and without final newline; (e) well-formed but ill-typed patches: every metavariable kind in every slot kind on either side with captures of every filler kind. Each runs patch.Parse and, if accepted, Apply on target files that contain every construct; a slice also through the CLI (-p and stdin). " +
 			"Oracle: terminates (watchdog), no panic or fatal error, and either success or an error value / non-zero exit with a diagnostic. non-trivial = the patch is accepted by patch.Parse (the engine runs)",
 		Assumptions: []string{"a case that does not return within the watchdog limit of 10 s (normal cost < 1 ms) is re-run in isolation before it is reported as a hang"},
 		Bounds: func(tier string) map[string]any {
@@ -302,6 +302,16 @@ func c08Gen(tier string, emit func(any)) {
 			}
 		}
 	}
+	// (i) symbolic links that form cycles in the target tree, and every sequence of <=3 lines of a -P list over
+	// {valid path, missing path, empty, blanks, tab, '#' line}
+	emit(&C08Case{Family: "i-link-cycles", Patch: "@@\nvar x expression\n@@\n-foo(x)\n+bar(x)\n", Files: []string{"package p\n\nfunc f() {\n\tfoo(1)\n}\n"}, CLI: "p"})
+	seqsEach([]string{"$VALID", "missing.patch", "", "   ", "\t", "# comment", "$VALID  "}, 3, func(s []string) {
+		if len(s) == 0 {
+			return
+		}
+		emit(&C08Case{Family: "i-list-lines", Patch: strings.Join(s, "\n"), Files: []string{"package p\n\nfunc f() {\n\tfoo(1)\n}\n"}, CLI: "P"})
+		emit(&C08Case{Family: "i-list-lines", Patch: strings.Join(s, "\n") + "\n", Files: []string{"package p\n\nfunc f() {\n\tfoo(1)\n}\n"}, CLI: "P"})
+	})
 	// (e) ill-typed but well-formed
 	slots := []struct{ id, minus, plus, file string }{
 		{"selector-sel", "-foo(M)", "+bar.M", "foo(§)"},
@@ -397,9 +407,26 @@ func c08Run(env *core.Env, ci any) core.Outcome {
 			for i, f := range c.Files {
 				tree[fmt.Sprintf("t/f%d.go", i)] = f
 			}
+			if c.CLI == "P" {
+				tree["v.patch"] = "@@\nvar x expression\n@@\n-foo(x)\n+bar(x)\n"
+			}
 			sb := newSandbox(env, "c08", tree)
 			defer sb.remove()
+			if c.Family == "i-link-cycles" {
+				for _, l := range [][2]string{{"../b", "t/a/peer"}, {"../a", "t/b/peer"}, {"..", "t/a/up"}, {".", "t/self"}, {"../../t", "t/b/root"}} {
+					os.MkdirAll(filepath.Dir(sb.path(l[1])), 0o755)
+					if err := os.Symlink(l[0], sb.path(l[1])); err != nil {
+						panic("harness: " + err.Error())
+					}
+				}
+				os.WriteFile(sb.path("t/a/f.go"), []byte(c.Files[0]), 0o644)
+				os.WriteFile(sb.path("t/b/g.go"), []byte(c.Files[0]), 0o644)
+			}
 			args := []string{"-p", sb.path("v.patch"), "."}
+			if c.CLI == "P" {
+				os.WriteFile(sb.path("list.txt"), []byte(strings.ReplaceAll(c.Patch, "$VALID", sb.path("v.patch"))), 0o644)
+				args = []string{"-P", sb.path("list.txt"), "."}
+			}
 			stdin := ""
 			if c.CLI == "stdin" {
 				args, stdin = []string{"."}, c.Patch
